@@ -49,6 +49,17 @@ theorem priceToUpTick_nat (prec x : Nat) (hx : 10 ^ prec ≤ x) :
     have hne : ((D prec x : Nat) : Int) ≠ (x : Int) := by exact_mod_cast h
     rw [if_pos hne, c1, upTick_T]
 
+/-- **fitting never moves a price against the orderer**: the down-tick is not above the price, the up-tick not below it -/
+theorem fitted_price_within_limit (prec x : Nat) (hx : 10 ^ prec ≤ x) :
+    priceToDownTick (x : Int) prec ≤ (x : Int) ∧ (x : Int) ≤ priceToUpTick (x : Int) prec := by
+  obtain ⟨c1, c2, c3, _⟩ := grid_cell prec x hx
+  constructor
+  · rw [priceToDownTick_nat prec x hx, c1]; exact_mod_cast c2
+  · rw [priceToUpTick_nat prec x hx]
+    split
+    · exact Int.le_refl _
+    · exact_mod_cast Nat.le_of_lt c3
+
 /-- the highest tick is the tick of index `hiIdx` -/
 theorem highestTick_eq (prec : Nat) (hprec : 10 ^ prec < 2 ^ 300 - 1) :
     highestTick prec = ((T prec (hiIdx prec) : Nat) : Int) := by
